@@ -185,6 +185,10 @@ package store
 //@ ghost var lastUpdStart ByteSeq
 //@ ghost var lastUpdEnd ByteSeq
 //@ ghost var lastRemovedID uint64
+//@ ghost var updAttempts Int
+//@ ghost var lastTryID uint64
+//@ ghost var lastTryVersion uint64
+//@ ghost var lastTryEnd ByteSeq
 //@ func (*Store).UpdateRegion
 //@   trusted
 //@   ghost regionUpdates = (result == nil ? regionUpdates + 1 : regionUpdates)
@@ -192,6 +196,10 @@ package store
 //@   ghost lastUpdVersion = (result == nil ? meta.Epoch.Version : lastUpdVersion)
 //@   ghost lastUpdStart = (result == nil ? bs(meta.StartKey) : lastUpdStart)
 //@   ghost lastUpdEnd = (result == nil ? bs(meta.EndKey) : lastUpdEnd)
+//@   ghost updAttempts = updAttempts + 1
+//@   ghost lastTryID = meta.ID
+//@   ghost lastTryVersion = meta.Epoch.Version
+//@   ghost lastTryEnd = bs(meta.EndKey)
 //@   modifies nothing
 //@ func (*Store).RemoveRegion
 //@   trusted
@@ -283,3 +291,24 @@ package store
 //@   ensures [answer-is-that-commands-outcome] answerMismatches == old(answerMismatches)
 //@   ensures [apply-failure-stops-the-batch] result == nil ==> !lastApplyFailed || pipelineApplies == old(pipelineApplies)
 //@   loop 1 invariant [in-step] cp != nil && pipelineApplies >= old(pipelineApplies) && pipelineApplies - old(pipelineApplies) == pipelineCompletions - old(pipelineCompletions) && answerMismatches == old(answerMismatches) && (pipelineApplies > old(pipelineApplies) ==> !lastApplyFailed)
+
+// C24 split kernel. SplitRegion shrinks the parent to [start, splitKey) with the epoch
+// version raised by one BEFORE the child is started; when the child cannot be built or
+// started the split is reported as failed, so the last thing asked of the catalog must be
+// to put the parent back exactly as it was found (same id, version and end key) -
+// otherwise [splitKey, oldEnd) is covered by no live region after a failed split.
+// buildChildPeerConfig and StartPeer are trusted leaves (StartPeer registers the child
+// through regionManager.updateRegion, not through Store.UpdateRegion, so it does not
+// touch the update ghosts).
+//@ func (*Store).buildChildPeerConfig
+//@   trusted
+//@   modifies nothing
+//@ func (*Store).StartPeer
+//@   trusted
+//@   modifies nothing
+//@ func (*Store).SplitRegion
+//@   property C24
+//@   exit [split-key-strictly-inside] result1 == nil ==> bcmp(parentMeta.StartKey, childMeta.StartKey) < 0 && (len(parentMeta.EndKey) == 0 || bcmp(childMeta.StartKey, parentMeta.EndKey) < 0)
+//@   exit [parent-shrunk-to-split-key] result1 == nil ==> regionUpdates == old(regionUpdates) + 1 && lastUpdID == parentMeta.ID && lastUpdVersion == parentMeta.Epoch.Version + 1 && lastUpdStart == bs(parentMeta.StartKey) && lastUpdEnd == bs(childMeta.StartKey)
+//@   exit [failed-split-puts-the-parent-back] result1 != nil && regionUpdates > old(regionUpdates) ==> updAttempts >= old(updAttempts) + 2 && lastTryID == parentMeta.ID && lastTryVersion == parentMeta.Epoch.Version && lastTryEnd == bs(parentMeta.EndKey)
+//@   ensures [at-most-one-shrink] regionUpdates <= old(regionUpdates) + 2
